@@ -58,6 +58,21 @@ def schema_json(t, basic=None, main=None):
     return {"top": ty_json(t), "basic": [[a, b] for a, b in (basic or {}).items()], "main": main}
 
 
+def canon_schema(sj):
+    """schema JSON with every remap table (lookups with unique keys) sorted by key: the form in which the
+    Lean schema and the one read off the working tree are compared — their order carries no meaning"""
+    def ty(j):
+        if isinstance(j, dict) and "list" in j:
+            return {"list": ty(j["list"])}
+        if isinstance(j, dict) and "model" in j:
+            return {"model": [[n, ty(t), d] for n, t, d in j["model"]],
+                    "h2f": sorted(map(list, j.get("h2f") or [])), "f2h": sorted(map(list, j.get("f2h") or []))}
+        return j
+    main = sj.get("main")
+    return {"top": ty(sj["top"]), "basic": sorted(map(list, sj.get("basic") or [])),
+            "main": None if main is None else [main[0], main[1], sorted(map(list, main[2]))]}
+
+
 def canon_model(j):
     """driver's value JSON → comparable form (floats as python floats)"""
     if isinstance(j, dict):
